@@ -45,6 +45,9 @@ def scenarios(ctx: Ctx, res: Result):
     for sc in gc.double_outage_family():
         res.count('double_outage_family')
         yield sc
+    for sc in gc.readdress_family():
+        res.count('readdress_family')
+        yield sc
     for _ in range(4000 if ctx.thorough else 450):
         res.count('random_faults')
         yield gc.fault_scenario(ctx.rng)
